@@ -14,6 +14,7 @@ import TephraModel.Fam.Lines
 import TephraModel.Fam.Lex
 import TephraModel.Fam.Run
 import TephraModel.Fam.Oracles
+import TephraModel.Fam.Render
 
 open Tephra
 
@@ -27,6 +28,8 @@ def handle (line : String) : String :=
       else if fam == "window" then Fam.Window.run fields
       else if fam == "lexiter" then Fam.Lex.runIter fields
       else if fam == "lexops" then Fam.Lex.runOps fields
+      else if fam == "render" then Fam.RenderF.run false fields
+      else if fam == "rendercolor" then Fam.RenderF.run true fields
       else if ["peg", "rep", "capture", "errors", "bracket", "list", "recover", "twice", "scoped", "ctxops",
                "term", "nopanic"].contains fam then Fam.Oracles.run fam fields
       else ("?", "FAIL unknown family " ++ fam)
